@@ -35,6 +35,7 @@ structure Num (K : Type) where
   evs : List (Evse.Ev K)                 -- dynamic state of every EV (also after it left)
   evsePilot : List K                     -- `EVSE.current_pilot` per station
   noiseIdx : Nat
+  occLog : List (List (Option String))   -- ghost: who sat where while period τ was charged (`Sim.State.occLog`)
 
 abbrev St (K : Type) := Net × Num K
 
@@ -48,13 +49,13 @@ def evsAt {K : Type} (net : Net) (evs : List (Evse.Ev K)) : List (Evse.Ev K) :=
 
 def numOf {K : Type} (s : Sim.State K) : Num K :=
   { pilots := s.pilots, rates := s.rates, peak := s.peak, evs := s.evs, evsePilot := s.evsePilot,
-    noiseIdx := s.noiseIdx }
+    noiseIdx := s.noiseIdx, occLog := s.occLog }
 
 /-- the simulator as `Sim`'s stages see it -/
 def toSim {K : Type} (g : CoreG (St K)) : Sim.State K :=
   { core := { g.core with occ := occOf g.net.1 }, pilots := g.net.2.pilots, rates := g.net.2.rates,
     peak := g.net.2.peak, evs := evsAt g.net.1 g.net.2.evs, evsePilot := g.net.2.evsePilot,
-    noiseIdx := g.net.2.noiseIdx, occLog := [] }
+    noiseIdx := g.net.2.noiseIdx, occLog := g.net.2.occLog }
 
 /-- does `StochasticNetwork.unplug(st?, x)` reach `self._EVSEs[station_id].unplug()`
     (stochastic_network.py:75-90)?  If so, at which station. -/
